@@ -355,6 +355,32 @@ func genC10(seed uint64, tier string, idx int) *Plan {
 			g.hostileActor(ci, s, note)
 		}
 	}
+	// a client that floods and vanishes: many complete frames in large writes, then a reset without ever reading the
+	// replies. Its number must be free again afterwards (a well-behaved terminal may own it legitimately).
+	var floodPhone []byte
+	floodV19 := false
+	if g.r.chance(12) {
+		floodV19 = g.r.chance(50)
+		floodPhone = g.distinctPhone(floodV19, used)
+		ci := g.addConn("service", floodV19, floodPhone)
+		p.Conns[ci].Hostile = true
+		var stream []byte
+		for n := 25 + g.r.intn(300); n > 0; n-- {
+			stream = append(stream, g.mkFrame(ci, 0x0002, g.randSerial(), nil).Raw...)
+		}
+		a := &Actor{Name: p.Conns[ci].Label, Conn: ci, Ops: []Op{{K: "dial", MinStep: g.r.intn(60)}}}
+		for off := 0; off < len(stream); {
+			n := 600 + g.r.intn(3000)
+			if off+n > len(stream) {
+				n = len(stream) - off
+			}
+			a.Ops = append(a.Ops, Op{K: "send", Data: append([]byte(nil), stream[off:off+n]...), End: true})
+			off += n
+		}
+		a.Ops = append(a.Ops, Op{K: []string{"rst", "rst", "fin"}[g.r.intn(3)]})
+		p.Actors = append(p.Actors, a)
+		p.Faults = append(p.Faults, "input.flood_and_vanish")
+	}
 	// commands kept outstanding on hostile JT808 connections, so that their malformed "responses" reach the
 	// response parsers that run in the writer goroutine
 	for k, key := range hostileKeys {
@@ -394,6 +420,14 @@ func genC10(seed uint64, tier string, idx int) *Plan {
 		p.Actors = append(p.Actors, &Actor{Name: "fresh.att", Conn: ci, Ops: []Op{
 			{K: "dial", After: &Dep{Actor: "settle", N: len(settle.Ops)}}, {K: "send", Data: u.Raw, End: true, Frame: 1}, {K: "quiet"}}})
 		p.Expect.Extra["fresh_att"] = int64(ci)
+	}
+	if floodPhone != nil {
+		ci := g.addConn("service", floodV19, floodPhone)
+		f := g.mkFrame(ci, 0x0002, 8, nil)
+		p.Expect.Frames[ci] = []SentFrame{f}
+		p.Actors = append(p.Actors, &Actor{Name: "fresh.same", Conn: ci, Ops: []Op{
+			{K: "dial", After: &Dep{Actor: "settle", N: len(settle.Ops)}}, {K: "send", Data: f.Raw, End: true, Frame: 1}, {K: "quiet"}}})
+		p.Expect.Extra["fresh_same"] = int64(ci)
 	}
 	p.Sched = g.sched()
 	p.MaxStep = 200000
@@ -447,7 +481,7 @@ func checkC10(r *Result) []Violation {
 		}
 	}
 	// new connections are accepted and served
-	for _, k := range []string{"fresh_svc", "fresh_att"} {
+	for _, k := range []string{"fresh_svc", "fresh_att", "fresh_same"} {
 		ci64, ok := r.Plan.Expect.Extra[k]
 		if !ok {
 			continue
